@@ -19,6 +19,9 @@ META = {
                 for t in ("quick", "thorough")},
     "assumptions": ["category codes are 0..extent-1 (what a cube requires); an explicit shape covers every value and the common value"],
 }
+META["rule"] += '; round 7: lines of 120 000-400 000 rows whose never-visited common cell holds 1-3 rows (huge shard)'
+for _t in META["require"]:
+    META["require"][_t] = list(META["require"][_t]) + ['class:common_cell_of_1-3_rows_on_a_line_of_>=10^5_rows']
 
 
 def shards(tier):
